@@ -13,6 +13,7 @@ import Rv.Lemmas.RingPos
 import Rv.Lemmas.RingFlow
 import Rv.Lemmas.RingOrder
 import Rv.Lemmas.RingProgress
+import Rv.Lemmas.RingOneCond
 namespace Rv.C02
 open Rv.Ring Rv.Spec
 
@@ -305,6 +306,50 @@ theorem ring_progress (k : Nat) (hk : k ≤ 32) (σ : State) (h : Reachable k σ
       subst this; exact hnd hr
   obtain ⟨l, _, h1, h2⟩ := no_stuck k hk σ h c hpend
   rw [hq l h1] at h2; cases h2
+
+/-! ### Who is woken by which step -/
+
+/-- wake-up targets of the model (= of ring.go as it is): FinishResult's `c1.Signal` wakes a
+    caller parked in `c1.Wait` on that slot whenever there is one — never the writer, whose pc
+    it leaves untouched — and does nothing only if no caller is parked there -/
+theorem signal_wakes_a_waiting_caller (k : Nat) (hk : k ≤ 32) (σ : State) (h : Reachable k σ)
+    (s : Nat) (w : Option Nat) (hr : σ.rpc = .signal s) (he : enabled k (.rSignal w) σ = true) :
+    (apply k (.rSignal w) σ).wpc = σ.wpc ∧
+    (match w with
+     | some c => σ.pc c = .waiting s ∧ (apply k (.rSignal w) σ).pc c = .ready s
+     | none => ∀ c, σ.pc c ≠ .waiting s) := by
+  have i := Inv.of_reachable hk h
+  simp only [enabled, hr] at he
+  cases w with
+  | some c =>
+    have hpc : σ.pc c = .waiting s := by simpa using he
+    simp [Ring.apply, hr, hpc]
+  | none =>
+    refine ⟨by simp [Ring.apply, hr], ?_⟩
+    intro c hc
+    have hlt : c < σ.ncalls := lt_ncalls i c (by rw [hc]; simp)
+    have := List.all_eq_true.1 he c (List.mem_range.2 hlt)
+    simp [hc] at this
+
+/-- the callers' `c2.Broadcast` wakes the writer if (and only if) it is parked on that slot and
+    wakes no caller: apart from the broadcasting caller itself every pc is unchanged -/
+theorem broadcast_wakes_only_the_writer (k : Nat) (σ : State) (c s : Nat) (hpc : σ.pc c = .bcast s) :
+    (apply k (.bcast c) σ).wpc = (if σ.wpc = .sleeping s then .woken s else σ.wpc) ∧
+    ∀ c', c' ≠ c → (apply k (.bcast c) σ).pc c' = σ.pc c' := by
+  refine ⟨by simp only [Ring.apply, hpc], fun c' hne => ?_⟩
+  simp only [Ring.apply, hpc, upd_apply, hne, if_false]
+
+/-- the deadlock-freedom theorems depend on these targets: in the variant with ONE wait set per
+    slot (writer and callers park on the same condition variable, Signal wakes an arbitrary
+    member of it, Broadcast all of it — Rv/Lemmas/RingOneCond.lean) a deadlock is reachable on
+    2 slots: ring full of written-and-unanswered commands, writer parked on the oldest slot,
+    one more caller parked behind it, the reader's Signal is consumed by the writer; the final
+    state has no enabled productive transition although caller 2 is still waiting -/
+theorem one_cond_var_variant_deadlocks :
+    (OneCond.run1 1 (init 1) OneCond.deadlockSchedule).map
+      (fun σ => OneCond.stuck1 1 σ && σ.pc 2 == .waiting 1 && σ.wpc == .sleeping 1 && σ.rpc == .idle &&
+        (σ.slot 1).mark == 0 && σ.read1 == 2 && σ.read2 == 2) = some true :=
+  OneCond.one_cond_var_deadlocks
 
 /-! ### Flow buffer -/
 
